@@ -69,6 +69,9 @@ dtz_forgetz(struct dt_dt_s d, zif_t zone)
 		return d;
 	}
 
+	/* a day 31 left behind by month arithmetic is the ultimo, the offset
+	 * we want is the one in force then, not on the 1st thereafter */
+	d = dt_fixup(d);
 	/* convert date/time part to unix stamp */
 	d_locl = dt_to_unix_epoch(d);
 	d_unix = zif_utc_time(zone, d_locl);
@@ -111,6 +114,9 @@ dtz_enrichz(struct dt_dt_s d, zif_t zone)
 		return d;
 	}
 
+	/* a day 31 left behind by month arithmetic is the ultimo, the offset
+	 * we want is the one in force then, not on the 1st thereafter */
+	d = dt_fixup(d);
 	/* convert date/time part to unix stamp */
 	d_unix = dt_to_unix_epoch(d);
 	if (UNLIKELY(d.sandwich && d.t.hms.s >= SECS_PER_MIN)) {
